@@ -104,7 +104,8 @@ def judge(fname, fb, xb, yb, gr, gi):
                 return "ok", 0, []
         which = "real" if not ok_r else "imag"
         kind = "nan" if flt.is_nan_bits(gr if not ok_r else gi, f) else "value"
-        return "ok", 10**9, [("%s/infinite-input/%s" % (fname, kind), "%s = (%r, %r): %s part violates C99 Annex G %r" % (zs, flt.bits_scalar(gr, f), flt.bits_scalar(gi, f), which, rs if not ok_r else is_))]
+        pat = "re=%s,im=%s" % tuple((("-inf" if b & f.sign_mask else "+inf") if sgn else "inf") if (b & ~f.sign_mask) == INF else ("zero" if (b & ~f.sign_mask) == 0 else "finite") for b, sgn in ((xb, True), (yb, False)))
+        return "ok", 10**9, [("%s/infinite-input/%s/%s" % (fname, kind, pat), "%s = (%r, %r): %s part violates C99 Annex G %r" % (zs, flt.bits_scalar(gr, f), flt.bits_scalar(gi, f), which, rs if not ok_r else is_))]
     if fname == "exp":
         spec = exp_reference(xb, yb, f)
         if spec is not None:
